@@ -453,38 +453,8 @@ impl Device {
     /// C02: reduce(log) = served = persisted, for every existing folder.
     pub async fn check_c02(&mut self, problems: &mut Vec<String>) -> Result<()> {
         for (f, id) in self.folders.clone() {
-            let key = self.folder_key(&id).await?;
-            let folder = self.account.folder(&id).await?;
-            let served = snapshot_served(&folder).await?;
-            let reduced = {
-                let log = folder.event_log();
-                let log = log.read().await;
-                let vault = FolderReducer::new()
-                    .reduce(&*log)
-                    .await?
-                    .build(true)
-                    .await?;
-                snapshot_vault(vault, &key).await?
-            };
-            let fresh =
-                Folder::new(self.target.clone(), &self.account_id, &id).await?;
-            let mirror = {
-                let ap = fresh.access_point();
-                let ap = ap.lock().await;
-                snapshot_vault(ap.vault().clone(), &key).await?
-            };
-            if served != reduced {
-                problems.push(format!(
-                    "{}: folder {f}: served folder differs from the replay of its event log: served={} replay={}",
-                    self.label, served, reduced
-                ));
-            }
-            if served != mirror {
-                problems.push(format!(
-                    "{}: folder {f}: served folder differs from the persisted vault: served={} persisted={}",
-                    self.label, served, mirror
-                ));
-            }
+            c02_for_folder(&self.account, self.label, &f, &id, &self.account_id, problems)
+                .await?;
         }
         Ok(())
     }
@@ -608,6 +578,52 @@ impl Device {
         }
         Ok(())
     }
+}
+
+/// C02 for one folder of an account: the replay of the event log, the
+/// folder the account serves and the persisted vault are the same folder.
+pub async fn c02_for_folder(
+    account: &LocalAccount,
+    label: &str,
+    f: &str,
+    id: &VaultId,
+    account_id: &AccountId,
+    problems: &mut Vec<String>,
+) -> Result<()> {
+    let key = account
+        .find_folder_password(id)
+        .await?
+        .ok_or_else(|| anyhow!("no folder password for {id}"))?;
+    let folder = account.folder(id).await?;
+    let served = snapshot_served(&folder).await?;
+    let reduced = {
+        let log = folder.event_log();
+        let log = log.read().await;
+        let vault = FolderReducer::new()
+            .reduce(&*log)
+            .await?
+            .build(true)
+            .await?;
+        snapshot_vault(vault, &key).await?
+    };
+    let target = account.backend_target().await;
+    let fresh = Folder::new(target, account_id, id).await?;
+    let mirror = {
+        let ap = fresh.access_point();
+        let ap = ap.lock().await;
+        snapshot_vault(ap.vault().clone(), &key).await?
+    };
+    if served != reduced {
+        problems.push(format!(
+            "{label}: folder {f}: served folder differs from the replay of its event log: served={served} replay={reduced}"
+        ));
+    }
+    if served != mirror {
+        problems.push(format!(
+            "{label}: folder {f}: served folder differs from the persisted vault: served={served} persisted={mirror}"
+        ));
+    }
+    Ok(())
 }
 
 /// Derived keys by (salt, seed, password): the KDF is paid once per key.
